@@ -348,6 +348,13 @@ def step (st : St) (line : String) : St × String :=
        | .error er => (st, errS er)
        | .ok l => upd st (gffSet g i l) .gff showGff)
     | _, _, _, _ => bad
+  -- `*_poke`: the caller mutates every object the file handed out (entry tuples / attribute dicts,
+  -- field content lists and subfield dicts, score arrays) and every object it passed in before;
+  -- the model's values are immutable, i.e. the specification is "nothing changes".
+  | ["gff_poke"] => match st with | .gff g => (st, showGff g) | _ => bad
+  | ["gb_poke"] => match st with | .gb g => (st, showGb g) | _ => bad
+  | ["fq_poke"] => match st with | .fq f => (st, showFq f) | _ => bad
+  | ["fa_poke"] => match st with | .fa f => (st, showFa f) | _ => bad
   | ["gff_reread"] =>
     match st with
     | .gff g => (.gff (gffRead (textRoundTrip g.lines)), showGff (gffRead (textRoundTrip g.lines)))
